@@ -13,7 +13,7 @@ ASSUME = c02.ASSUME + [
 
 def run(tier):
     rc = c02.run_e2(PID, tier, ASSUME, grammars=("act_fallible", "act_inline"),
-                    relevant=lambda c: any(x in c for x in c02.ERRORS))
+                    relevant=lambda c: any(x in c for x in c02.ERRORS), whole=(("act_fallible", "act_inline"), ("result",)))
     from vlib import e3
     return e3.add_stage(PID, tier, rc, ["errors", "recovery_errors"], {"C17"})
 
